@@ -56,6 +56,53 @@ func c11MoreScenarios() []c11Scenario {
 				body(vsrv.Get("node/"+c+"/kv/keys")), body(vsrv.Get("node/"+w.root+"/kv/key/k")))
 		}})
 
+	// S1d: a single-key POST against a DELETE of that key in a child version whose parent holds the key: the child must end with
+	// its own value or its own deletion, never with neither (which would let the parent's value show through)
+	childWorld := func() (*c11World, error) {
+		w, err := c11KVWorld()
+		if err != nil {
+			return nil, err
+		}
+		vsrv.PostS("node/"+w.root+"/kv/key/k", "old-k")
+		vsrv.Commit(w.root)
+		w.nodes["c"], err = vsrv.NewVersion(w.root)
+		return w, err
+	}
+	sc = append(sc, c11Scenario{name: "S1d:kv:post||delete:child-version", setup: childWorld,
+		bodies: func(w *c11World) []func() {
+			c := w.nodes["c"]
+			return []func(){
+				func() { w.resp[0] = vsrv.PostS("node/"+c+"/kv/key/k", "new-k") },
+				func() { w.resp[1] = vsrv.Delete("node/" + c + "/kv/key/k") },
+			}
+		},
+		verdict: func(w *c11World) (bad []string) { return nil },
+		observe: func(w *c11World) string {
+			c := w.nodes["c"]
+			return fmt.Sprintf("codes=%s k=%s keys=%s root-k=%s", codes(w, 2), body(vsrv.Get("node/"+c+"/kv/key/k")), body(vsrv.Get("node/"+c+"/kv/keys")), body(vsrv.Get("node/"+w.root+"/kv/key/k")))
+		}})
+	// S1e: the same with the key already deleted in the child (the POST has a tombstone to clear) and a second DELETE
+	sc = append(sc, c11Scenario{name: "S1e:kv:post||delete||delete:child-version-with-tombstone", setup: func() (*c11World, error) {
+		w, err := childWorld()
+		if err == nil {
+			vsrv.Delete("node/" + w.nodes["c"] + "/kv/key/k")
+		}
+		return w, err
+	},
+		bodies: func(w *c11World) []func() {
+			c := w.nodes["c"]
+			return []func(){
+				func() { w.resp[0] = vsrv.PostS("node/"+c+"/kv/key/k", "new-k") },
+				func() { w.resp[1] = vsrv.Delete("node/" + c + "/kv/key/k") },
+				func() { w.resp[2] = vsrv.Delete("node/" + c + "/kv/key/k") },
+			}
+		},
+		verdict: func(w *c11World) (bad []string) { return nil },
+		observe: func(w *c11World) string {
+			c := w.nodes["c"]
+			return fmt.Sprintf("codes=%s k=%s keys=%s root-k=%s", codes(w, 3), body(vsrv.Get("node/"+c+"/kv/key/k")), body(vsrv.Get("node/"+c+"/kv/keys")), body(vsrv.Get("node/"+w.root+"/kv/key/k")))
+		}})
+
 	dagShape := func(w *c11World) string {
 		dump := datastoreDump(w.root)
 		var ns []string
